@@ -750,7 +750,9 @@ func (g *c54Prog) importBlock(specs []string) string {
 }
 
 // c54DrawProgram draws a whole file.
-func c54DrawProgram(rt *rapid.T) (src string, level int, impCmt bool) {
+// With sibling=true the package-level declarations that shadow package names
+// are put into a second file of the same package (returned as sib).
+func c54DrawProgram(rt *rapid.T, sibling bool) (src, sib string, level int, impCmt bool) {
 	g := &c54Prog{rt: rt}
 	g.level = g.intn(0, 2, "level")
 	g.impCmt = g.pct(50, "importcomments")
@@ -812,14 +814,19 @@ func c54DrawProgram(rt *rapid.T) (src string, level int, impCmt bool) {
 			h := c54Handle{Name: name, Sels: p.Exports}
 			g.handles = append(g.handles, h)
 			usedNames[name] = true
-			shadow = append(shadow, g.pick([]string{"var " + name + " = x", "func " + name + " ( ) { }", "type " + name + " struct { }", "var (\n" + name + " , " + name + "2 = 1 , 2\n)", "const " + name + " = 1"}, "shadowdecl"))
+			shadow = append(shadow, g.pick([]string{"var " + name + " = x", "func " + name + " ( ) { }", "type " + name + " struct { }", "var (\n" + name + " , " + name + "2 = 1 , 2\n)", "var " + name + "0 , " + name + " = 1 , 2", "const " + name + " = 1", "const (\n" + name + "1 = iota\n" + name + "\n)"}, "shadowdecl"))
 		}
 	}
 	var sb strings.Builder
 	if g.pct(30, "filedoc") {
 		sb.WriteString(g.pick(c54Comments[:5], "filedoccomment") + "\n")
 	}
-	sb.WriteString("package " + g.pick([]string{"main", "foo", "p"}, "pkgname") + "\n")
+	pkgName := g.pick([]string{"main", "foo", "p"}, "pkgname")
+	if sibling {
+		sib = "package " + pkgName + "\n\n" + strings.Join(shadow, "\n") + "\n"
+		shadow = nil
+	}
+	sb.WriteString("package " + pkgName + "\n")
 	sb.WriteString(g.importBlock(specs))
 	// make sure every handle is referenced at least once at top level
 	for _, h := range g.handles {
@@ -876,7 +883,7 @@ func c54DrawProgram(rt *rapid.T) (src string, level int, impCmt bool) {
 	} else {
 		g.level = -1
 	}
-	return src, g.level, g.impCmt
+	return src, sib, g.level, g.impCmt
 }
 
 // triggers automatic semicolon insertion at a following newline
